@@ -137,6 +137,33 @@ Proof.
   rewrite !(feature_enabled c s _ L). btauto.
 Qed.
 
+(* ------------------------------------------------------------------ modular arithmetic *)
+Lemma lt16 x : x mod two16 < two16.  Proof. unfold two16. lia. Qed.
+Lemma lt32 x : x mod two32 < two32.  Proof. unfold two32. lia. Qed.
+Lemma lt37 x : x mod num_channels < num_channels.  Proof. unfold num_channels. lia. Qed.
+
+(* the skip read off the counter is the skip taken *)
+Lemma obs_skip cnt k : cnt < two16 -> k < two16 -> ((cnt + k) mod two16 + two16 - cnt) mod two16 = k.
+Proof. unfold two16. lia. Qed.
+
+(* the pull-back read off the counter is the pull-back made *)
+Lemma obs_back cnt mm : cnt < two16 -> mm < two16 ->
+  (cnt + two16 - (cnt + two16 - mm) mod two16) mod two16 = mm.
+Proof. unfold two16. lia. Qed.
+
+(* ( channel_index_ + count + offset ) % 37 really goes back by -count *)
+Lemma chan_back ch mm : ch < num_channels -> mm <= max_latency ->
+  ((ch + move_offset - mm) mod num_channels + mm) mod num_channels = ch.
+Proof. unfold num_channels, max_latency, move_offset. lia. Qed.
+
+Lemma times_ge a t iv : 0 < iv -> a * iv <= t -> a <= resched_times t iv.
+Proof.
+  intros P H. unfold resched_times.
+  destruct (N.eq_dec a 0) as [->|NZ]; [lia|].
+  assert (a <= (t + iv - 1) / iv); [|lia].
+  apply N.div_le_lower_bound; [lia|]. nia.
+Qed.
+
 (* ------------------------------------------------------------------ simulation *)
 Record inv (c : cfg) (s : state) (m : mon) : Prop := mkinv {
   i_c : mc m = counter s; i_ch : mch m = chan s; i_t : mt m = time s; i_cur : mcur m = cur s;
